@@ -35,6 +35,8 @@ pub enum TOp {
     /// incremental collection; `true`: simulated time passes first
     Gc(bool),
     FullGc,
+    /// recount of every chunk from the finished artifacts + removal of unreferenced chunks
+    Repair,
 }
 
 #[derive(Clone, Debug, Serialize, Deserialize)]
@@ -57,6 +59,7 @@ pub fn sched_strategy(t: Tier) -> impl Strategy<Value = SchedCase> {
         2 => any::<u16>().prop_map(TOp::DeleteAny),
         2 => any::<bool>().prop_map(TOp::Gc),
         1 => Just(TOp::FullGc),
+        1 => Just(TOp::Repair),
     ];
     let max_threads = t.pick(4usize, 4usize);
     let max_ops = t.pick(3usize, 5usize);
@@ -76,6 +79,7 @@ enum K {
     D,
     Gc,
     FullGc,
+    Repair,
 }
 
 #[derive(Clone, Debug)]
@@ -266,13 +270,21 @@ pub fn sched_check(case: &SchedCase, ctx: &mut CaseCtx) -> Result<(), Fail> {
                             rec.err = Some(e.to_string());
                         }
                     },
+                    TOp::Repair => {
+                        // same class as full_gc for the overlap bookkeeping: a recount from the
+                        // artifact list that removes what nothing references
+                        rec.kind = K::Repair;
+                        if let Err(e) = blob.repair() {
+                            rec.err = Some(e.to_string());
+                        }
+                    },
                 }
                 rec.end = seq.fetch_add(1, Ordering::SeqCst);
                 log.lock().unwrap().push(rec);
             }
         }));
     }
-    let report = sched::run(scripts, &case.schedule, &["blob.chunk.rmw", "blob.refs.rmw"], Duration::from_millis(40));
+    let report = sched::run(scripts, &case.schedule, &["blob.chunk.rmw", "blob.refs.rmw", "blob.repair.counted"], Duration::from_millis(40));
     if let Some((t, msg)) = report.panics.first() {
         ctx.fail("conc-panic-in-thread", format!("thread {t} panicked: {msg}"))?;
     }
@@ -311,6 +323,7 @@ pub fn sched_check(case: &SchedCase, ctx: &mut CaseCtx) -> Result<(), Fail> {
                 K::D => "delete",
                 K::Gc => "gc",
                 K::FullGc => "full_gc",
+                K::Repair => "repair",
             };
             ctx.fail(format!("conc-op-error:{what}"), format!("a concurrent {what} returned an error: {e}"))?;
             return Ok(());
@@ -338,13 +351,16 @@ pub fn sched_check(case: &SchedCase, ctx: &mut CaseCtx) -> Result<(), Fail> {
         }
     }
     // overlap classes on shared chunks (evidence, and the categorical part of signatures)
-    let collectors: Vec<&OpRec> = ops.iter().filter(|o| matches!(o.kind, K::Gc | K::FullGc)).collect();
+    let collectors: Vec<&OpRec> = ops.iter().filter(|o| matches!(o.kind, K::Gc | K::FullGc | K::Repair)).collect();
     // categorical cause of a wrong count / lost chunk: which operations on that chunk overlapped in time
     let race_class = |key: &str| -> Option<&'static str> {
         let touching: Vec<&OpRec> = ops.iter().filter(|o| matches!(o.kind, K::W | K::D) && o.keys.iter().any(|k| k == key)).collect();
         let with_collector = |kind: K| touching.iter().any(|w| w.kind == K::W && collectors.iter().any(|c| c.kind == kind && w.overlaps(c)));
         if with_collector(K::FullGc) {
             return Some("W||full_gc");
+        }
+        if with_collector(K::Repair) {
+            return Some("W||repair");
         }
         let mut best: Option<&'static str> = None;
         for (i, a) in touching.iter().enumerate() {
@@ -382,7 +398,11 @@ pub fn sched_check(case: &SchedCase, ctx: &mut CaseCtx) -> Result<(), Fail> {
         if let Some(w) = writer_op(a) {
             for col in &collectors {
                 if w.overlaps(col) {
-                    ctx.label(if col.kind == K::Gc { "writer overlaps gc in time" } else { "writer overlaps full_gc in time" });
+                    ctx.label(match col.kind {
+                        K::Gc => "writer overlaps gc in time",
+                        K::Repair => "writer overlaps repair in time",
+                        _ => "writer overlaps full_gc in time",
+                    });
                 }
             }
         }
@@ -412,11 +432,14 @@ pub fn sched_check(case: &SchedCase, ctx: &mut CaseCtx) -> Result<(), Fail> {
             let ov = |kind: K| w.as_ref().map_or(false, |w| collectors.iter().any(|c| c.kind == kind && w.overlaps(c)));
             let class = if ov(K::FullGc) {
                 "W||full_gc"
+            } else if ov(K::Repair) {
+                "W||repair"
             } else if ov(K::Gc) {
                 "W||gc"
             } else {
                 match race_class(missing) {
                     Some("W||full_gc") => "after:W||full_gc",
+                    Some("W||repair") => "after:W||repair",
                     Some("W||W") => "after:W||W",
                     Some("W||D") => "after:W||D",
                     Some("D||D") => "after:D||D",
